@@ -1007,6 +1007,9 @@ func (fr *Frame) evalCall(x *SCall, ctx *specCtx) SV {
 			}
 		}
 		fail("spec: at(): no loop %s", k.Val)
+	case "wraps": // wraps(err, target): errors.Is(err, target) by the %w chain
+		g.needWraps = true
+		return SV{Term: "(err_wraps " + arg(0).Term + " " + arg(1).Term + ")", K: svBool}
 	case "solid": // solid(v): interface value that is neither nil nor a nil pointer in an interface
 		a := arg(0)
 		if !isIface(a.T) {
